@@ -20,10 +20,14 @@
    the deviation is written up under findings/C13-<importer>-*.md:
    * revolut2: rows without Completed Date are skipped; the statement's Balance column is turned
      into ONE assertion per (day, currency): the Balance of the last such row in file order; the
-     order of the assertions of one day is Go's map order (findings/C13-revolut2-balances.md). *)
+     order of the assertions of one day is Go's map order (findings/C13-revolut2-balances.md).
+   * revolut: one transaction per row, but a currency sale/purchase row changes the account in
+     two commodities; an assertion of the row's Balance precedes the transaction of every row
+     whose date differs from the preceding row's date, which is the day's closing balance only in
+     a statement that lists the newest row first (findings/C13-revolut-balances.md). *)
 From Coq Require Import ZArith QArith List Bool.
 From Knut Require Import Model.Str Model.Dec Model.Date Model.Account Model.Ledger Model.Journal
-     Model.ImpCommonA Model.ImpCommonB Model.Imp.Revolut2
+     Model.ImpCommonA Model.ImpCommonB Model.Imp.Revolut2 Model.Imp.Revolut
      Spec.ImpSpecA Spec.ImpSpecB Proofs.DecValue Proofs.ImpProofsB.
 Import ListNotations.
 
@@ -60,3 +64,35 @@ Example C13_revolut2_row_wf :
   r2_wf_row [[67]; [67]; []; [50;48;50;48;45;48;55;45;48;49;32;49;48;58;48;48;58;48;48]; [97];
              [45;49;54;46;57;53]; [49;46;48;48]; [67;72;70]; [67]; [55;55;57;46;54;53]]%Z = true.
 Proof. vm_compute. reflexivity. Qed.
+
+(* ---------------------------------------------------------------- revolut *)
+(* The header (9 fields) names the statement's currency in "Paid Out (CUR)".  Every further record
+   is a booking row of 9 fields: exactly one transaction per row, in order, on the Completed Date;
+   a plain row books the signed amount (+Paid In / -Paid Out) between Expenses:TBD and the
+   account in CUR; a "Sold X to Y" / "Bought X from Y" row books the signed amount in CUR and the
+   amount of Exchange Out (received) resp. Exchange In (given) in its currency against the
+   valuation account Income:<rest of the account name>; the account changes by exactly these
+   amounts; description = Reference, Exchange Rate, Category joined by blanks with white space
+   collapsed and trimmed.  Besides the transactions: an assertion of the row's Balance in CUR,
+   dated on the row's date, before the transaction of each row whose date differs from the date
+   of the row before it (rv_weave); nothing else. *)
+Theorem C13_revolut_faithful : forall acct cur header rows,
+  acct <> tbd_account -> acct <> valuation_account_for acct ->
+  len_is header 9 = true -> field header 2 = s_paid_out ++ cur ++ [41%Z] ->
+  forallb is_alpha cur = true -> cur <> [] ->
+  forallb rv_wf_row rows = true ->
+  exists ts,
+    import_revolut acct (CRec header :: map CRec rows) = MOk (rv_weave acct cur zero_date rows ts) /\
+    Forall2 (fun r t => books_b acct (rv_fact cur r) (rv_legs acct cur r) None t) rows ts /\
+    map t_desc ts = map build_desc (map rv_text rows).
+Proof. exact revolut_faithful. Qed.
+Print Assumptions C13_revolut_faithful.
+
+(* "26 Nov 2020;Sold EUR to CHF; 184.98;;CHF  199.95;; 100.00;FX-rate;General" as the reader delivers it *)
+Example C13_revolut_row_wf :
+  rv_wf_row [[50;54;32;78;111;118;32;50;48;50;48]; [83;111;108;100;32;69;85;82;32;116;111;32;67;72;70];
+             [49;56;52;46;57;56]; []; [67;72;70;32;32;49;57;57;46;57;53]; []; [49;48;48;46;48;48]; [70;88]; [71]]%Z = true /\
+  rv_exchange [[50;54;32;78;111;118;32;50;48;50;48]; [83;111;108;100;32;69;85;82;32;116;111;32;67;72;70];
+             [49;56;52;46;57;56]; []; [67;72;70;32;32;49;57;57;46;57;53]; []; [49;48;48;46;48;48]; [70;88]; [71]]%Z
+    = Some ([67;72;70]%Z, mkDec 19995 (-2)).
+Proof. vm_compute. split; reflexivity. Qed.
